@@ -17,6 +17,7 @@ files).  Helper definitions (`isCause`, `judgeFile`, `ReportOk`, `FileReportOk`)
 import SltVerif.Lemmas.CliSerial
 import SltVerif.Lemmas.CliReport
 import SltVerif.Lemmas.CliParallel
+import SltVerif.Lemmas.CliTrace
 import SltVerif.Lemmas.CliCancel
 namespace Slt.C16
 open Slt
@@ -231,6 +232,22 @@ theorem parallel_exit_zero_iff {c : DCfg} {ls : List DLabel} {s : DSt}
         · exact absurd h1 hnl
         · have := hok (i, FileResult.err) hmem
           cases this
+
+/-- **… and for the observed runs**: if a parallel run of the real binary that exited with status 0
+replays in the driver model (`traceCheck`, see C17.trace_replay_iff), then every one of its files was
+reported `ok`. -/
+theorem observed_exit_zero_all_ok {c : DCfg} {labels : List DLabel} {observed : List CEv}
+    {tags : List FileResult} (h : traceCheck c labels observed tags true = .ok) :
+    ∀ i, i < tags.length → tags[i]? = some FileResult.ok := by
+  obtain ⟨s, hs⟩ := traceCheck_ok h
+  intro i hi
+  have hall := ((parallel_exit_zero_iff hs.run).mp hs.exit).1
+  have hr := hs.results i (by rw [← hs.ntags]; exact hi)
+  have ht : tags[i]? = some tags[i] := List.getElem?_eq_getElem hi
+  rw [ht] at hr
+  have := hall (i, tags[i]) (resultOf_mem hr)
+  simp only at this
+  rw [ht, this]
 
 /-- without fail-fast, refused connections and signals every file gets its own verdict (`ok` or
 `err`) in parallel mode -/
